@@ -9,7 +9,7 @@
     [le], [lt] are the order of [Ops]; [canon x j] says xs[j] <= x < xs[j+1], or j = N-2 and
     x <= xs[N-1]; [seg x j] says xs[j] <= x <= xs[j+1]. *)
 From Coq Require Import ZArith List.
-From LP Require Import Num OrdLaws C09_Model C09_Proofs C09_Proofs_Ctor C09_Proofs_Session C09_Proofs_Table.
+From LP Require Import Num OrdLaws C09_Model C09_Proofs C09_Proofs_Ctor C09_Proofs_Session C09_Proofs_Table C09_Proofs_Save.
 Import ListNotations.
 Local Open Scope Z_scope.
 
@@ -470,7 +470,7 @@ Print Assumptions C09_continuation_history_free.
     on the object itself: WHATEVER the list of arguments is, the values written after any history are those a fresh object
     (with the prefactor of the history) writes — an instance of the theorem above; and by C09_history_free applied to the
     history extended by these calls, the object Save_Function leaves behind answers like a fresh one again.
-    (The file output itself is not modelled; Save_Function is not run by the C09 check.) *)
+    (The text formatting of the file is not modelled; the check runs Save_Function and reads the file back, see below.) *)
 Theorem C09_save_function_history_free :
   forall (T : Type) (Ops : NumOps T), OrdLaws Ops -> forall (N : Z) (xv : Z -> T),
   increasing Ops N xv -> size_ok N ->
@@ -479,6 +479,58 @@ Theorem C09_save_function_history_free :
     traceE Ops N xv E (map (fun x => OpInterpolate x) points) (fresh (prefactor_after Ops h (n1 Ops))).
 Proof. intros T Ops OL N xv Hi Hn E h points. exact (continuation_free Ops OL N xv Hi Hn _ _ _ _ _ h _). Qed.
 Print Assumptions C09_save_function_history_free.
+
+(** The file Save_Function writes is an OUTPUT of the object ("Set_Prefactor and Multiply change all outputs by exactly the stated
+    factor").  [save_ops N xv points] are the member calls Save_Function(filename, points) makes: Interpolate at every point of
+    Linear_Space(domain[0], domain[1], points), in order; a row of the file is the argument and the value of one call.
+    History clause: the rows written after any history are the rows a fresh object with the prefactor of the history writes. *)
+Theorem C09_save_function_file_history_free :
+  forall (T : Type) (Ops : NumOps T), OrdLaws Ops -> forall (N : Z) (xv : Z -> T),
+  increasing Ops N xv -> size_ok N ->
+  forall (E : evals T) (h : list (op T)) (points : Z),
+    traceE Ops N xv E (save_ops Ops N xv points) (runE Ops N xv E h (init Ops)) =
+    traceE Ops N xv E (save_ops Ops N xv points) (fresh (prefactor_after Ops h (n1 Ops))).
+Proof. intros T Ops OL N xv Hi Hn E h points. exact (continuation_free Ops OL N xv Hi Hn _ _ _ _ _ h _). Qed.
+Print Assumptions C09_save_function_file_history_free.
+
+(** Prefactor clause for the file: row number k, written after ANY history h (and after the k rows before it), holds exactly the
+    prefactor of the history — determined by its Set_Prefactor / Multiply calls alone — times the prefactor-free value of THE
+    segment of the k-th point (one multiplication, as Interpolate itself), for every point inside the domain. *)
+Theorem C09_save_function_rows_scaled :
+  forall (T : Type) (Ops : NumOps T), OrdLaws Ops -> forall (N : Z) (xv : Z -> T),
+  increasing Ops N xv -> size_ok N ->
+  forall (E : evals T) (h : list (op T)) (points : Z) (k : nat) (x0 : T),
+  let pts := linear_space Ops (xv 0) (xv (N - 1)) points in
+  (k < length pts)%nat ->
+  let x := nth k pts x0 in
+  nisnan Ops x = false -> in_domain Ops N xv x ->
+  exists j, nth k (traceE Ops N xv E (save_ops Ops N xv points) (runE Ops N xv E h (init Ops))) ONone =
+              OValue [j] (nmul Ops (prefactor_after Ops h (n1 Ops)) (ev_seg E j x)) /\
+            canon Ops N xv x j.
+Proof. exact @save_function_rows. Qed.
+Print Assumptions C09_save_function_rows_scaled.
+
+(** "... and nothing else alters the object's observable behaviour": writing a file leaves the prefactor of the history in place
+    (with C09_history_free for the history extended by the calls of Save_Function: the object answers like a fresh one again). *)
+Theorem C09_save_function_keeps_prefactor :
+  forall (T : Type) (Ops : NumOps T), OrdLaws Ops -> forall (N : Z) (xv : Z -> T),
+  increasing Ops N xv -> size_ok N ->
+  forall (E : evals T) (h : list (op T)) (points : Z),
+    prefactor (runE Ops N xv E (h ++ save_ops Ops N xv points) (init Ops)) = prefactor_after Ops h (n1 Ops).
+Proof. exact @save_function_keeps_prefactor. Qed.
+Print Assumptions C09_save_function_keeps_prefactor.
+
+(** Interpolation_2D::Save_Function(filename, x_points, y_points = 0): the member calls [save_ops2] (x outer, y inner; y_points = 0
+    stands for x_points); the rows written after any history are those a fresh object with the prefactor of the history writes. *)
+Theorem C09_save_function_2d_file_history_free :
+  forall (T : Type) (Ops : NumOps T), OrdLaws Ops ->
+  forall (Nx : Z) (xv : Z -> T) (Ny : Z) (yv : Z -> T) (fv : Z -> Z -> T),
+  increasing Ops Nx xv -> increasing Ops Ny yv -> size_ok Nx -> size_ok Ny ->
+  forall (h : list (op2 T)) (x_points y_points : Z),
+    trace2 Ops Nx xv Ny yv fv (save_ops2 Ops Nx xv Ny yv x_points y_points) (run2 Ops Nx xv Ny yv fv h (init2 Ops)) =
+    trace2 Ops Nx xv Ny yv fv (save_ops2 Ops Nx xv Ny yv x_points y_points) (mkState2 (init Ops) (init Ops) (prefactor2_after Ops h (n1 Ops))).
+Proof. intros T Ops OL Nx xv Ny yv fv Hx Hy Hnx Hny h xp yp. exact (continuation_free2 Ops OL Nx xv Ny yv fv Hx Hy Hnx Hny h _). Qed.
+Print Assumptions C09_save_function_2d_file_history_free.
 
 Theorem C09_continuation_history_free_2d :
   forall (T : Type) (Ops : NumOps T), OrdLaws Ops ->
